@@ -450,12 +450,17 @@ func main() {
 		{4, 3, []string{"a", "b", "1_a", "2_a"}, []string{"a", "1_a", "b"}, []string{"f3"}, []string{"%s", "%s/."}},
 		// C: legal names that merely look like path tricks (dots, leading dots, backslash)
 		{3, 2, []string{"a..b", "..a", "a..", "a\\b"}, []string{"x..y", "..h", "a"}, []string{"f0", "f3"}, []string{"%s", "./%s", "$ROOT/%s"}},
+		// D: siblings whose names extend a directory's name with a byte below / above the
+		// separator ('-' '.' ' ' sort before "d/", '0' after): the order in which a walk meets
+		// entries is then not the byte order of their relative paths
+		{4, 2, []string{"d", "d x", "d-x", "d.x", "d0"}, []string{"a", "z"}, []string{"f3"}, []string{"%s", "$ROOT/%s"}},
 	}
 	if thorough {
 		fams = []fam{
 			{4, 2, []string{"a", "b", "1_a", "2_a", "ä b", ".h"}, []string{"a", "1_a", "b"}, []string{"f0", "f3", "symF", "symD", "symX"}, []string{"%s", "./%s", "%s/", "%s/.", "b/../%s", "$ROOT/%s"}},
 			{5, 3, []string{"a", "b", "1_a", "2_a"}, []string{"a", "1_a", "2_a", "b"}, []string{"f3", "f0"}, []string{"%s", "%s/."}},
 			{4, 2, []string{"a..b", "..a", "a..", "a\\b", "..."}, []string{"x..y", "..h", "a"}, []string{"f0", "f3", "symF"}, []string{"%s", "./%s", "%s/.", "$ROOT/%s"}},
+			{5, 2, []string{"d", "d x", "d-x", "d.x", "d0"}, []string{"a", "z", "a.b"}, []string{"f3", "f0"}, []string{"%s", "%s/.", "$ROOT/%s"}},
 		}
 	}
 	for fi, f := range fams {
